@@ -35,6 +35,11 @@ def applicable(prog, lang) -> bool:
                 return False
         if k == "A" and not tr["anon"]:
             return False
+        if k == "G":
+            if lang == "Python":
+                return False  # no block statements
+            if lang in ("C", "C++", "C#") and "F" not in st:
+                return False  # a bare block outside a function is not legal there (Java: instance initialiser)
         if k == "F":
             if "F" in st and not tr["nests"]:
                 return False
@@ -52,7 +57,7 @@ def applicable(prog, lang) -> bool:
                 return False
         if k == "C" and it["v"] == "try" and lang == "C":
             return False
-        if k in "FKCA":
+        if k in "FKCAG":
             st.append(k)
         elif k == "X":
             st.pop()
@@ -204,6 +209,11 @@ def render(prog, lang, layout=0):
         elif k == "A":
             L({"JavaScript": "run(function () {", "TypeScript": "run(function () {", "C++": "auto l = [](int q) {", "Java": "run(q -> {", "C#": "Run(q => {"}[lang])
             stack.append(("A", None))
+            mark_end()
+            ind += 1
+        elif k == "G":
+            L("{")
+            stack.append(("G", None))
             mark_end()
             ind += 1
         elif k == "X":
